@@ -57,6 +57,17 @@ PROPS = {
         "namespace": "Richchk.Props.C06",
         "trusted": ["Spec/Layouts.lean: hand transcription of the Scenario.chk section layouts"],
     },
+    "C12": {
+        "targets": ["RichchkModel.Props.C12"],
+        "harness": "codecs_h",
+        "theorems_file": "RichchkModel/Props/C12.lean",
+        "namespace": "Richchk.Props.C12",
+        "trusted": [
+            "Spec/Flags.lean: hand transcription of the flag bits the specification defines",
+            "Decimal arithmetic is exact on the domain (<= 18 significant digits, 28-digit context); strict UTF-8 decode followed by encode is the identity",
+            "hand model Model/Codecs.lean (bit-string formatting/indexing as bit arithmetic, enum id map with later-wins, AI tag packing, hit-point fraction), tied by exhaustive correspondence runs",
+        ],
+    },
     "C19": {
         "targets": ["RichchkModel.Props.C19"],
         "harness": "bytelayer",
@@ -125,7 +136,7 @@ def regenerate():
     return gaps, summary
 
 
-EXTRA_TRANSLATORS = []  # filled below as translators are added
+EXTRA_TRANSLATORS = ["tr_codecs"]  # each module exposes generate(gen_dir, build_dir, write_if_changed)
 
 
 def lake_build(targets, timeout=3000):
